@@ -441,6 +441,12 @@ class REPEX_state:
         if not self.cstep < self.tsteps:
             return False
 
+        # never start more jobs than there are steps left (restart with
+        # fewer remaining steps than workers)
+        if self.cstep + (self.workers - self.toinitiate) >= self.tsteps:
+            self.toinitiate = -1
+            return False
+
         self.cworker = self.workers - self.toinitiate
 
         if self.toinitiate == self.workers:
